@@ -73,16 +73,28 @@ Theorem C08_get_file_total :
 Proof. exact get_file_tame. Qed.
 Theorem C08_bread_total :
   forall FNMAX T_START T_CONTENT T_EOA T_EOF (S : Stream) (I : st S -> Prop) (pos : st S -> N) (M : N),
-  Tame S I pos M -> forall b n, I (b_src b) -> b_offs b <> [] ->
-    bread_post S I b n (bread FNMAX T_START T_CONTENT T_EOA T_EOF S b n).
+  Tame S I pos M -> forall zf b n, I (b_src b) -> b_offs b <> [] -> (N.to_nat M < zf)%nat ->
+    bread_post S I b n (bread FNMAX T_START T_CONTENT T_EOA T_EOF S zf b n).
 Proof. exact bread_tame. Qed.
-(* the skip loop needs at most |offsets| - current_offset + 1 iterations *)
+(* the skip loop needs at most |offsets| - current_offset + 1 iterations; between two skips
+   at most M empty content blocks of the file are stepped over (C06-ZLB repair; each one
+   consumes bytes of the input, and a skip may seek backwards: the bound zf is per run) *)
 Theorem C08_bread_ready_fuel :
   forall FNMAX T_START T_CONTENT T_EOA T_EOF (S : Stream) (I : st S -> Prop) (pos : st S -> N) (M : N),
-  Tame S I pos M -> forall fuel b n, I (b_src b) ->
-    (2 <= fuel)%nat -> (length (b_offs b) < fuel + b_cur b)%nat ->
-    bread_post S I b n (bread_ready FNMAX T_START T_CONTENT T_EOA T_EOF S fuel b n).
+  Tame S I pos M -> forall fuel zf b n, I (b_src b) ->
+    (2 <= fuel)%nat -> (length (b_offs b) < fuel + b_cur b)%nat -> (N.to_nat M < zf)%nat ->
+    bread_post S I b n (bread_ready FNMAX T_START T_CONTENT T_EOA T_EOF S fuel zf b n).
 Proof. exact bread_ready_tame. Qed.
+(* stepping over the empty content blocks: more fuel than bytes remaining is enough *)
+Theorem C08_next_block_total :
+  forall FNMAX T_START T_CONTENT T_EOA T_EOF (S : Stream) (I : st S -> Prop) (pos : st S -> N) (M : N),
+  Tame S I pos M -> forall zf id s, I s -> (N.to_nat (remaining S pos M s) < zf)%nat ->
+    match next_block FNMAX T_START T_CONTENT T_EOA T_EOF S zf id s with
+    | (s', Ok _) => I s' /\ pos s + 1 <= pos s' /\ pos s' <= M
+    | (s', Err e) => I s' /\ e <> EFuel
+    | (_, Crash _) => False
+    end.
+Proof. exact next_block_tame. Qed.
 
 (* 4. linear extraction: every iteration consumes a byte; fuel > input length suffices *)
 Theorem C08_linear_extract_total :
@@ -178,18 +190,12 @@ Print Assumptions C08_parse_block_total.
 Print Assumptions C08_footer_alloc_bound.
 Print Assumptions C08_ropen_total.
 Print Assumptions C08_bread_total.
+Print Assumptions C08_next_block_total.
 Print Assumptions C08_linear_extract_total.
 Print Assumptions C08_usable_after_error_plain.
 Print Assumptions C08_usable_after_error.
 
-(* 7. repair (convert_to_archive): NOT proved in this round.  What is available: over a cursor
-      and over the fail-safe encryption reader (C08_fsenc_tame) the stream is tame, hence every
-      parse_block and every read issued by the repair loops is total (C08_parse_block_total);
-      missing: the invariant "every id of rp_ids has a name and, until ended, a hash entry"
-      (Crash 1431 / 1556 arms), the absence of Crash in the writer model's results, and the
-      fuel argument of buf_fill / content_loop (each iteration consumes >= 1 byte when
-      0 < CACHE).  Covered by Tie B only (repair_plain / repair_enc rows on every
-      model-compared input, direct oracle on all inputs). *)
+
 
 (* ---------- non-vacuity ---------- *)
 
@@ -206,6 +212,26 @@ Example C08_hist_hostile_length :
   hist_plain consts_verif [1; 2; 3; 255; 255; 255; 255] [] [[0]] = [[1]].
 Proof. vm_compute. reflexivity. Qed.
 
+(* empty FileContent blocks (valid per FORMAT.md, C06-ZLB) are stepped over, not taken for the
+   end of the file: file "f" (id 10) has the content blocks [] [1;2;3] | [] | [] [] [4;5] | []
+   in four runs interleaved with file "g" (one run consists of an empty block only); reading
+   to the end, reading 2 bytes at a time and linear extraction deliver all 5 bytes *)
+Example C08_empty_blocks_nonvacuous :
+  let ser := ser_block Src.BT_FileStart Src.BT_FileContent Src.BT_EndOfArchiveData Src.BT_EndOfFile in
+  let bl := [BStart 10 [102]; BContent 10 []; BContent 10 [1; 2; 3]; BStart 11 [103]; BContent 10 [];
+             BContent 11 [9]; BContent 10 []; BContent 10 []; BContent 10 [4; 5]; BEof 11 (repeat 7 32);
+             BContent 10 []; BEof 10 (repeat 8 32)] in
+  let off n := len (concat (map ser (firstn n bl))) in
+  let body := concat (map ser bl) ++ [Src.BT_EndOfArchiveData] ++
+              ser_footer [([102], mkFI [off 0; off 4; off 6; off 10]%nat 5 (off 11%nat));
+                          ([103], mkFI [off 3; off 5; off 9]%nat 1 (off 9%nat))] in
+  hist_plain consts_verif body [[102]; [103]] [[3; 0; 100]; [2; 0; 2; 2; 2; 2]; [3; 1; 1]; [4; 0; 1]] =
+  [[0]; [7; 5]; [0; 1; 2; 3]; [0; 4; 5]; [0]; [88];
+        [7; 5]; [0; 1; 2]; [0; 3]; [0; 4; 5]; [0]; [88];
+        [7; 1]; [0; 9]; [0]; [88];
+        [0]; [6; 1; 2; 3; 4; 5]; [6; 9]; [88]].
+Proof. vm_compute. reflexivity. Qed.
+
 (* the hypotheses of the encryption-layer theorems are met by both sets of constants, and the
    invariant is inhabited: opening a real (toy-cipher) stream lands in it with the chunk loaded *)
 Example C08_enc_guards_nonvacuous :
@@ -217,3 +243,303 @@ Example C08_enc_guards_nonvacuous :
    | _ => False
    end).
 Proof. vm_compute. repeat split; reflexivity. Qed.
+
+(* 7. repair (convert_to_archive) — supersedes the "NOT proved in this round" note above.  *)
+(* ====================================================================================== *)
+From MLA Require Import Writer Repair CompLayer TotalRepair TotalRepairInst TotalComp TotalCompInst.
+From MLA.Concrete Require Sha256.
+
+(* over ANY tame source, from any state of its invariant, with fuel > M and 0 < CACHE: a
+   report or an error, never a Crash site (the expect()s at lib.rs:1431 / 1556 are
+   unreachable), never out of fuel *)
+Theorem C08_repair_total :
+  forall FNMAX CACHE T_START T_CONTENT T_EOA T_EOF H (S : Stream) (I : st S -> Prop) (pos : st S -> N) (M : N),
+  Tame S I pos M -> 0 < CACHE ->
+  forall fuel s0 out0, I s0 -> (N.to_nat M < fuel)%nat ->
+    total (repair FNMAX CACHE T_START T_CONTENT T_EOA T_EOF H S fuel s0 out0).
+Proof. exact repair_total. Qed.
+(* sharper: fuel > the bytes that can still be delivered; the only error is the output
+   writer's WrongWriterState (FilenameTooLong cannot occur: the parser bounded the name;
+   append_file_content's short-source error cannot occur: the buffer has the announced length) *)
+Theorem C08_repair_total_strong :
+  forall FNMAX CACHE T_START T_CONTENT T_EOA T_EOF H (S : Stream) (I : st S -> Prop) (pos : st S -> N) (M : N),
+  Tame S I pos M -> 0 < CACHE ->
+  forall fuel s0 out0, I s0 -> (N.to_nat (remaining S pos M s0) < fuel)%nat ->
+    match repair FNMAX CACHE T_START T_CONTENT T_EOA T_EOF H S fuel s0 out0 with
+    | Ok _ => True | Err e => e = EState | Crash _ => False
+    end.
+Proof. exact repair_total_strong. Qed.
+(* the inner loops never return the model's out-of-fuel marker (which the 'read_block loop
+   would fold into ErrorInFile): read errors are the source's, writer errors WrongWriterState,
+   and the cache never exceeds CACHE bytes *)
+Theorem C08_repair_buf_fill_total :
+  forall CACHE (S : Stream) (I : st S -> Prop) (pos : st S -> N) (M : N), Tame S I pos M ->
+  forall fuel s r acc, I s -> (N.to_nat (remaining S pos M s) < fuel)%nat ->
+    match buf_fill CACHE S fuel s r acc with
+    | (s', r', buf, e) =>
+      I s' /\ (len acc <= CACHE -> len buf <= CACHE) /\
+      (exists d, buf = acc ++ d /\ (e = None -> pos s' = pos s + len d /\ (len d <> 0 -> pos s' <= M))) /\
+      match e with None => True | Some x => x <> EFuel end
+    end.
+Proof. exact buf_fill_tame. Qed.
+Theorem C08_repair_content_loop_total :
+  forall CACHE T_CONTENT (S : Stream) (I : st S -> Prop) (pos : st S -> N) (M : N), Tame S I pos M -> 0 < CACHE ->
+  forall fuel s out id r got, I s -> (N.to_nat (remaining S pos M s) < fuel)%nat ->
+    match content_loop CACHE T_CONTENT S fuel s out id r got with
+    | (s', out', got', rerr, werr) =>
+      I s' /\ (rerr = None -> werr = None -> pos s <= pos s' /\ (pos s' <= M \/ pos s' = pos s)) /\
+      match rerr with None => True | Some x => x <> EFuel end /\
+      match werr with None => True | Some x => x = EState end
+    end.
+Proof. exact content_loop_tame. Qed.
+
+(* the fuel is a proof device only: any two amounts above the remaining bytes give the same
+   result — no report of repair hides an exhausted loop *)
+Theorem C08_repair_fuel_irrelevant :
+  forall FNMAX CACHE T_START T_CONTENT T_EOA T_EOF H (S : Stream) (I : st S -> Prop) (pos : st S -> N) (M : N),
+  Tame S I pos M -> 0 < CACHE ->
+  forall fuel fuel' s0 out0, I s0 ->
+    (N.to_nat (remaining S pos M s0) < fuel)%nat -> (N.to_nat (remaining S pos M s0) < fuel')%nat ->
+    repair FNMAX CACHE T_START T_CONTENT T_EOA T_EOF H S fuel s0 out0 =
+    repair FNMAX CACHE T_START T_CONTENT T_EOA T_EOF H S fuel' s0 out0.
+Proof. exact repair_fuel_irrelevant. Qed.
+
+(* layer-less archives: ANY bytes, any start offset, any output writer *)
+Theorem C08_repair_total_plain :
+  forall FNMAX CACHE T_START T_CONTENT T_EOA T_EOF H, 0 < CACHE ->
+  forall (w : bytes) fuel p out0, (N.to_nat (len w) < fuel)%nat ->
+    total (repair FNMAX CACHE T_START T_CONTENT T_EOA T_EOF H (Cursor w) fuel p out0).
+Proof. exact repair_total_plain. Qed.
+(* encrypted archives, both fail-safe modes: ANY key stream, tag function and bytes with
+   fewer than 2^32 chunks: the constructor, then repair *)
+Theorem C08_repair_total_enc :
+  forall FNMAX CACHE T_START T_CONTENT T_EOA T_EOF H, 0 < CACHE ->
+  forall CH TG ks tagc (unauth : bool) (w : bytes) fuel out0,
+  0 < CH -> len w < 2 ^ 32 * CH -> (N.to_nat (len w) < fuel)%nat ->
+    match fs_open CH TG ks (Cursor w) 0 with
+    | (s, Ok _) => total (repair FNMAX CACHE T_START T_CONTENT T_EOA T_EOF H
+                            (FsEnc CH TG ks tagc unauth (Cursor w)) fuel s out0)
+    | (_, Err e) => e <> EFuel
+    | (_, Crash _) => False
+    end.
+Proof. exact repair_total_enc. Qed.
+(* the very call of the Tie-B entry point Run.repair_plain *)
+Theorem C08_repair_plain_entry_total :
+  forall (k : consts) (body : bytes), 0 < cCACHE k ->
+    total (repair (cFNMAX k) (cCACHE k) Src.BT_FileStart Src.BT_FileContent Src.BT_EndOfArchiveData
+             Src.BT_EndOfFile Sha256.sha256 (Cursor body) (N.to_nat (len body) + 16) 0 (w_init)).
+Proof. exact repair_plain_entry_total. Qed.
+
+(* allocation: the four per-file tables are paid for by the bytes of the blocks parsed (17 per
+   FileStart / FileContent, 41 per EndOfFile), the names by the bytes of the FileStart blocks.
+   rp_hash models the Sha256 states (constant size each; the model keeps the absorbed bytes
+   as a device): only the number of its entries is bounded here. *)
+Theorem C08_repair_tables_bounded :
+  forall FNMAX CACHE T_START T_CONTENT T_EOA T_EOF H (S : Stream) (I : st S -> Prop) (pos : st S -> N) (M : N),
+  Tame S I pos M -> 0 < CACHE ->
+  forall fuel s0 out0, I s0 -> (N.to_nat M < fuel)%nat ->
+    match block_loop FNMAX CACHE T_START T_CONTENT T_EOA T_EOF H S fuel (mkRP S s0 out0 [] [] [] []) with
+    | (_, Crash _) => False
+    | (st, _) =>
+      17 * len (rp_names S st) + nbytes (rp_names S st) <= M - pos s0 /\
+      17 * len (rp_ids S st) <= M - pos s0 /\
+      17 * len (rp_hash S st) <= M - pos s0 /\
+      41 * len (rp_done S st) <= M - pos s0
+    end.
+Proof. exact repair_tables_bounded. Qed.
+
+Print Assumptions C08_repair_total.
+Print Assumptions C08_repair_total_strong.
+Print Assumptions C08_repair_fuel_irrelevant.
+Print Assumptions C08_repair_buf_fill_total.
+Print Assumptions C08_repair_content_loop_total.
+Print Assumptions C08_repair_total_plain.
+Print Assumptions C08_repair_total_enc.
+Print Assumptions C08_repair_plain_entry_total.
+Print Assumptions C08_repair_tables_bounded.
+
+(* non-vacuity: 40 hostile bytes — a FileStart "ab" with id 1, then a FileContent announcing
+   2^64-1 bytes followed by 4: repaired with fuel |w|+1, reports UnexpectedEOFOnNextBlock,
+   "ab" unfinished; the 4 bytes are in the output *)
+Example C08_repair_hostile40 :
+  let w := [Src.BT_FileStart] ++ le64 1 ++ le64 2 ++ [97; 98] ++
+           [Src.BT_FileContent] ++ le64 1 ++ le64 (2 ^ 64 - 1) ++ [1; 2; 3; 4] in
+  len w = 40 /\ 0 < cCACHE consts_verif /\
+  match repair (cFNMAX consts_verif) (cCACHE consts_verif) Src.BT_FileStart Src.BT_FileContent
+          Src.BT_EndOfArchiveData Src.BT_EndOfFile Sha256.sha256 (Cursor w) 41 0 (w_init) with
+  | Ok (status, unfinished, out) =>
+    status = FEofNextBlock /\ unfinished = [[97; 98]] /\ w_final out = true /\
+    sliceN 36 4 (w_out out) = [1; 2; 3; 4]
+  | _ => False
+  end.
+Proof. vm_compute. repeat split; reflexivity. Qed.
+(* an id that is started twice stops the loop with ArchiveFileIDReuse, tables bounded *)
+Example C08_repair_tables_nonvacuous :
+  let w := [Src.BT_FileStart] ++ le64 7 ++ le64 1 ++ [97] ++ [Src.BT_FileStart] ++ le64 7 ++ le64 1 ++ [98] in
+  match block_loop (cFNMAX consts_verif) (cCACHE consts_verif) Src.BT_FileStart Src.BT_FileContent
+          Src.BT_EndOfArchiveData Src.BT_EndOfFile Sha256.sha256 (Cursor w) 37 (mkRP (Cursor w) 0 (w_init) [] [] [] []) with
+  | (st, Ok FIdReuse) => len (rp_ids _ st) = 1 /\ nbytes (rp_names _ st) = 1 /\ len w = 36
+  | _ => False
+  end.
+Proof. vm_compute. repeat split; reflexivity. Qed.
+
+(* ====================================================================================== *)
+(* 8. the compression layer reader over ANY inner bytes, ANY SizesInfo, ANY decompressor   *)
+(* ====================================================================================== *)
+
+(* Read::read from any state of the invariant (Ready / InData / Empty): at most what was
+   asked, never beyond max_uncompressed_pos, an error leaves a usable (Empty) reader;
+   cread runs with fuel 4 and never exhausts it *)
+Theorem C08_comp_reader_total :
+  forall BLOCK dec (S : Stream) (Iin : st S -> Prop) (pin : st S -> N) (M : N),
+  Tame S Iin pin M -> 0 < BLOCK ->
+  forall si P0 (c : creader S) n, Icomp BLOCK S Iin si P0 c ->
+    match cread BLOCK dec S c n with
+    | (c', Ok d) => Icomp BLOCK S Iin si P0 c' /\ len d <= n /\ c_pos c' = c_pos c + len d /\
+                    (len d <> 0 -> c_pos c' <= si_max BLOCK si)
+    | (c', Err e) => Icomp BLOCK S Iin si P0 c' /\ e <> EFuel /\ c_pos c' = c_pos c
+    | (_, Crash _) => False
+    end.
+Proof. exact cread_total. Qed.
+(* Seek::seek: Start(p) for any p; Current(d) unless pos + d overflows an i64 (site 495);
+   End(d) unless d = i64::MIN (site 529); into_inner on Empty (site 186) unreachable *)
+Theorem C08_comp_seek_total :
+  forall BLOCK dec (S : Stream) (Iin : st S -> Prop) (pin : st S -> N) (M : N),
+  Tame S Iin pin M -> 0 < BLOCK ->
+  forall si P0 (c : creader S) w, Icomp BLOCK S Iin si P0 c -> seek_arg_ok S c w ->
+    match cseek BLOCK dec S c w with
+    | (c', Ok q) => Icomp BLOCK S Iin si P0 c' /\ c_pos c' = q /\ (forall p, w = FromStart p -> q = p)
+    | (c', Err e) => Icomp BLOCK S Iin si P0 c' /\ e <> EFuel
+    | (_, Crash _) => False
+    end.
+Proof. exact cseek_total. Qed.
+Theorem C08_comp_seek_total_small :
+  forall BLOCK dec (S : Stream) (Iin : st S -> Prop) (pin : st S -> N) (M : N),
+  Tame S Iin pin M -> 0 < BLOCK ->
+  forall si P0 (c : creader S) w, Icomp BLOCK S Iin si P0 c ->
+    si_max BLOCK si + BLOCK <= 2 ^ 62 -> P0 <= 2 ^ 62 ->
+    match w with FromStart _ => True | FromCur d | FromEnd d => (- 2 ^ 62 < d < 2 ^ 62)%Z end ->
+    match cseek BLOCK dec S c w with
+    | (c', Ok q) => Icomp BLOCK S Iin si P0 c' /\ c_pos c' = q /\ (forall p, w = FromStart p -> q = p)
+    | (c', Err e) => Icomp BLOCK S Iin si P0 c' /\ e <> EFuel
+    | (_, Crash _) => False
+    end.
+Proof. exact cseek_total_small. Qed.
+(* new + initialize over any inner layer whose initialize is total: total on arbitrary
+   footers; a SizesInfo that parses costs at most LIMIT bytes and at most the bytes read *)
+Theorem C08_comp_open_total :
+  forall BLOCK LIMIT (dec : bytes -> bytes) (S : Stream) (Iin : st S -> Prop) (pin : st S -> N) (M : N),
+  Tame S Iin pin M -> 0 < BLOCK ->
+  forall inner_init : st S -> st S * res unit,
+  (forall i, Iin i -> match inner_init i with
+                      | (i', Ok _) => Iin i'
+                      | (i', Err e) => Iin i' /\ e <> EFuel
+                      | (_, Crash _) => False
+                      end) ->
+  forall i0, Iin i0 ->
+    match comp_open LIMIT S inner_init i0 with
+    | (c', Ok _) => exists si, Icomp BLOCK S Iin si (c_pos c') c' /\
+                               4 * len (si_sizes si) + 12 <= LIMIT /\ 4 * len (si_sizes si) + 12 <= M
+    | (c', Err e) => cst_ok S Iin (c_state c') /\ c_si c' = None /\ e <> EFuel
+    | (_, Crash _) => False
+    end.
+Proof. exact comp_open_tame. Qed.
+(* what a decompressor is handed: at most min(csize, M) bytes, whatever the u32 says *)
+Theorem C08_comp_decomp_input_bound :
+  forall BLOCK dec (S : Stream) (Iin : st S -> Prop) (pin : st S -> N) (M : N),
+  Tame S Iin pin M -> 0 < BLOCK ->
+  forall si i p, Iin i ->
+    match new_decompressor_at BLOCK dec S (Some si) i p with
+    | Ok d => Iin (d_in d) /\ d_off d = 0 /\ p mod BLOCK = 0 /\ p < si_max BLOCK si /\
+              exists csize cb, nthN (si_sizes si) (p / BLOCK) = Some csize /\
+                               d_plain d = dec cb /\ len cb <= csize /\ len cb <= M
+    | Err e => e <> EFuel
+    | Crash _ => False
+    end.
+Proof. exact new_dec_tame. Qed.
+(* the reader is tame for reading (position c_pos, bound max_uncompressed_pos) ... *)
+Theorem C08_comp_reader_tame_rd :
+  forall BLOCK dec (S : Stream) (Iin : st S -> Prop) (pin : st S -> N) (M : N),
+  Tame S Iin pin M -> 0 < BLOCK ->
+  forall si P0, Tame (RdOnly (CompReader BLOCK dec S)) (Icomp BLOCK S Iin si P0) (@c_pos S) (si_max BLOCK si).
+Proof. exact comp_rdonly_tame. Qed.
+(* ... so is the stack comp ∘ enc ∘ cursor over ANY bytes, and the block parser above it *)
+Theorem C08_comp_enc_stack_tame :
+  forall BLOCK dec, 0 < BLOCK -> forall CHUNK TAG ks tagc (w : bytes), 0 < CHUNK -> len w < 2 ^ 32 * CHUNK ->
+  forall si P0,
+    Tame (RdOnly (CompReader BLOCK dec (EncReader CHUNK TAG ks tagc (Cursor w))))
+         (Icomp BLOCK (EncReader CHUNK TAG ks tagc (Cursor w)) (Ienc CHUNK (Cursor w) (fun _ => True) (fun s => s) (len w)) si P0)
+         (@c_pos (EncReader CHUNK TAG ks tagc (Cursor w))) (si_max BLOCK si).
+Proof. exact comp_enc_stack_tame. Qed.
+Theorem C08_comp_enc_open_total :
+  forall BLOCK LIMIT (dec : bytes -> bytes), 0 < BLOCK ->
+  forall CHUNK TAG ks tagc (w : bytes), 0 < CHUNK -> len w < 2 ^ 32 * CHUNK ->
+    match comp_open LIMIT (EncReader CHUNK TAG ks tagc (Cursor w)) (enc_init0 CHUNK TAG ks tagc w)
+            (@mkE (Cursor w) 0 [] 0 0) with
+    | (c', Ok _) => exists si,
+        Icomp BLOCK (EncReader CHUNK TAG ks tagc (Cursor w)) (Ienc CHUNK (Cursor w) (fun _ => True) (fun s => s) (len w)) si (c_pos c') c' /\
+        4 * len (si_sizes si) + 12 <= LIMIT /\ 4 * len (si_sizes si) + 12 <= len w
+    | (c', Err e) => c_si c' = None /\ e <> EFuel
+    | (_, Crash _) => False
+    end.
+Proof. exact comp_enc_open_total. Qed.
+Theorem C08_comp_enc_parse_block_total :
+  forall BLOCK dec, 0 < BLOCK -> forall CHUNK TAG ks tagc (w : bytes), 0 < CHUNK -> len w < 2 ^ 32 * CHUNK ->
+  forall FNMAX TS TC TA TE si P0 c,
+    Icomp BLOCK (EncReader CHUNK TAG ks tagc (Cursor w)) (Ienc CHUNK (Cursor w) (fun _ => True) (fun s => s) (len w)) si P0 c ->
+    match parse_block FNMAX TS TC TA TE (CompReader BLOCK dec (EncReader CHUNK TAG ks tagc (Cursor w))) c with
+    | (c', Ok _) => Icomp BLOCK (EncReader CHUNK TAG ks tagc (Cursor w)) (Ienc CHUNK (Cursor w) (fun _ => True) (fun s => s) (len w)) si P0 c' /\
+                    c_pos c + 1 <= c_pos c' /\ c_pos c' <= si_max BLOCK si
+    | (c', Err e) => Icomp BLOCK (EncReader CHUNK TAG ks tagc (Cursor w)) (Ienc CHUNK (Cursor w) (fun _ => True) (fun s => s) (len w)) si P0 c' /\ e <> EFuel
+    | (_, Crash _) => False
+    end.
+Proof. exact comp_enc_parse_block_total. Qed.
+
+Print Assumptions C08_comp_reader_total.
+Print Assumptions C08_comp_seek_total.
+Print Assumptions C08_comp_seek_total_small.
+Print Assumptions C08_comp_open_total.
+Print Assumptions C08_comp_decomp_input_bound.
+Print Assumptions C08_comp_reader_tame_rd.
+Print Assumptions C08_comp_enc_stack_tame.
+Print Assumptions C08_comp_enc_open_total.
+Print Assumptions C08_comp_enc_parse_block_total.
+
+(* non-vacuity: a hostile SizesInfo (no compressed size at all, last_block_size = 5) is in the
+   invariant; reading gives an error (no size for block 0) and poisons the reader, which then
+   keeps answering WrongReaderState to read and seek *)
+Example C08_comp_hostile_sizes :
+  let si := mkSI [] 5 in
+  let c := @mkC (Cursor []) (@CReady (Cursor []) 0) (Some si) 0 in
+  Icomp 256 (Cursor []) (fun _ => True) si 0 c /\
+  (let '(c1, r1) := cread 256 toy_dec (Cursor []) c 10 in
+   r1 = Err EInval /\ c_state c1 = CEmpty /\
+   snd (cread 256 toy_dec (Cursor []) c1 10) = Err EState /\
+   snd (cseek 256 toy_dec (Cursor []) c1 (FromStart 0)) = Err EState /\
+   snd (cseek 256 toy_dec (Cursor []) c1 (FromEnd 0)) = Err EState).
+Proof.
+  split; [|vm_compute; repeat split; reflexivity].
+  unfold Icomp, pinv. cbn [c_si c_state c_pos cst_ok]. repeat split. vm_compute. discriminate.
+Qed.
+(* a footer announcing one block of 1000 compressed bytes and 5 plain bytes, with no block
+   data before it: opens, and the read hands the decompressor what there is (the footer's own
+   bytes), delivering at most 5 bytes *)
+Example C08_comp_hostile_footer :
+  let f := footer_of [1000] 5 in
+  let w := f ++ le_bytes 4 (len f) in
+  match comp_open 4096 (Cursor w) (fun i => (i, Ok tt)) 0 with
+  | (c, Ok _) =>
+    c_si c = Some (mkSI [1000] 5) /\
+    match cread 256 toy_dec (Cursor w) c 100 with
+    | (c1, Ok d) => len d = 5 /\ c_pos c1 = 5
+    | _ => False
+    end
+  | _ => False
+  end.
+Proof. vm_compute. repeat split; reflexivity. Qed.
+(* the two API-only overflow sites are reached exactly by the excluded arguments *)
+Example C08_comp_seek_overflow_witnesses :
+  let c := @mkC (Cursor []) (@CReady (Cursor []) 0) (Some (mkSI [] 5)) 1 in
+  snd (cseek 256 toy_dec (Cursor []) c (FromCur (2 ^ 63 - 1))) = Crash 495 /\
+  snd (cseek 256 toy_dec (Cursor []) c (FromEnd (- 2 ^ 63))) = Crash 529.
+Proof. vm_compute. split; reflexivity. Qed.
